@@ -147,6 +147,9 @@ func runC14(p *Prog, r *Report) {
 		r.Check(okAll && n >= 4, "leveldb/memdb.DB.kvData", "arena-grows-by-append", "kvData is only ever assigned append(kvData, …), a re-slice or a fresh make", fmt.Sprintf("%d stores, all of the allowed forms: %v", n, okAll), "")
 		r.End()
 	}
+	if want("C14.6") {
+		ruleMemdbComparer(p, r, "C14.6")
+	}
 	if want("C14.5") {
 		r.Begin("C14.5", "E-GUARD", "counters and links: Put increments n (and adds key+value to kvSize) only for a new key and leaves the links untouched on an overwrite; Delete unlinks and decrements only for an existing key and reports ErrNotFound otherwise", 4)
 		exact := func(callee string) Atom {
